@@ -14,6 +14,7 @@ pub mod c13;
 pub mod c14;
 pub mod c15;
 pub mod c16;
+pub mod c17;
 pub mod c18;
 pub mod c19;
 
@@ -33,6 +34,7 @@ pub fn dispatch(engine: &str, sh: &mut Shard) -> bool {
         "c14" => c14::run(sh),
         "c15" => c15::run(sh),
         "c16" => c16::run(sh),
+        "c17" => c17::run(sh),
         "c18" => c18::run(sh),
         "c19" => c19::run(sh),
         _ => return false,
